@@ -23,20 +23,23 @@ SRV_NOTE = "Trusts TLC, the stepped engine (hooks under cfg actix_net_verif) and
 SRV_TECH = ("TLA+ spec AcceptDispatch.tla (accept thread at shared-access granularity, waker queue, counters, availability bits, "
             "listeners, commands, errors, faults) model-checked exhaustively by TLC with NEG variants; TLC state-graph paths and NEG "
             "counterexamples replayed on the real accept loop through a deterministic stepped driver; TLC evaluates the spec's "
-            "property predicates on every observed state (predicate-mode trace validation)")
+            "property predicates on every observed state (predicate-mode trace validation: the verdict) and checks that the "
+            "recorded executions - environment actions, yield points of the accept thread, measured states - are behaviours of "
+            "the specification (strict-mode trace validation, AcceptDispatchStrict.tla: the binding; rejections are DRIFT); "
+            "end-to-end load scenarios on a real Server judged by TLC (ServerLoadTrace.tla)")
 for _p, _ref, _txt in [
     ("C01", "5/C01, 4.1", "Every interleaving of connects, accept micro-steps, worker polls, completions, pause/resume/stop and one fault is explored by TLC for 1..3 workers, 1..2 listeners (TCP+UDS), limits 1..3; the paths are executed on the real Accept/ServerWorker and TLC checks on the measured state that each connection is called exactly once, by the worker it was dispatched to, with its own listener's service, and is never in two places or silently closed."),
     ("C02", "5/C02, 4.1", "TLC checks queued+in-progress <= limit in every state of the model (incl. between send and counter increment) for limits 1..4 and 1..3 workers; the same predicate is evaluated on every state observed while replaying the model's paths on the real code (measured channel length + live service futures)."),
-    ("C03", "5/C03, 4.1", "TLC checks the no-lost-wake-up invariant at every quiescent state and its liveness form under weak fairness; wrong wake rules are rejected (NEG); the model's paths (completions before/after the accept thread recorded the dispatch) are replayed on the real code, the real loop is iterated to quiescence and TLC evaluates the predicate on the measured state."),
-    ("C04", "5/C04, 4.1, 4.4", "Round-robin over undisturbed windows is an invariant of the model (rejected for a stuck rotation) and is evaluated on the dispatch log of the real accept loop with the rotation state measured at every increment; the 512 availability bits are checked exhaustively against Availability.tla."),
-    ("C05", "5/C05, 4.1", "TLC explores all sequences of pause/resume/stop, fatal and per-connection accept errors, deadline expiries and connects (TCP and UDS listeners); replayed on the real loop with injected accept errors and virtual time; TLC checks no dispatch while paused, UDS reachability, and that no listener is stranded at quiescence."),
+    ("C03", "5/C03, 4.1", "TLC checks the no-lost-wake-up invariant at every quiescent state and its liveness form under weak fairness; wrong wake rules are rejected (NEG); the model's paths (completions before/after the accept thread recorded the dispatch) are replayed on the real code, the real loop is iterated until its real poll would block (epoll probe; interests left in the waker queue then count as lost) and TLC evaluates the predicate on the measured state; every schedule ends with a probe client per listener that must be dispatched."),
+    ("C04", "5/C04, 4.1, 4.4", "Round-robin over undisturbed windows is an invariant of the model (rejected for a stuck rotation) and is evaluated on the dispatch log of the real accept loop twice: with the rotation state the accept thread itself reports at every increment, and on windows derived from measured loads only (they start at a settled state with every worker in the rotation and below its limit - lemma C04_BitsTrueWhenCalm, checked by TLC incl. faults and commands); fault schedules with a replaced worker in another slot are replayed; the 512 availability bits are checked exhaustively against Availability.tla."),
+    ("C05", "5/C05, 4.1", "TLC explores all sequences of pause/resume/stop, fatal and per-connection accept errors, deadline expiries and connects (TCP and UDS listeners); replayed on the real loop with injected accept errors and virtual time; TLC checks no dispatch while paused (also inside the iterations the driver runs while settling), UDS reachability, and that no listener is stranded at quiescence; every schedule ends with a probe (one more client per listener before the final resume must wait, one after resume and after the back-off time must be dispatched); every transition class of the model (action x accept-thread mode) is replayed in the quick tier."),
     ("C08", "5/C08, 4.1", "TLC explores a worker dying at every point of a dispatch/completion history with tear-down orders, late availability notifications and replacement (two faults in thorough/corpus); replayed on the real loop where panics and spins are caught as data; TLC checks no panic, no spin, no availability bit without handle, no duplicate handle, re-routing."),
 ]:
     CLAIMED[_p] = ("server", _ref, SRV_TECH, _txt, SRV_NOTE)
 
 CLAIMED["C13"] = ("codec", "5/C13, 4.8",
     "TLA+ FramedRead.tla model-checked by TLC for 3 codecs (+4 NEG variants); every edge replayed on the real Framed; recorded runs validated by TLC (FramedReadTrace: strict = drift, predicate = violation); differential long-stream runs through the cross-checked reference",
-    "For the length-prefixed test codec, LinesCodec and BytesCodec, TLC enumerates every input up to length 4 (quick) / 5-6 (thorough) over alphabets containing the delimiters, and every script of read results (all chunkings, Pending, one I/O error, EOF) on a branch-by-branch model of next_item, proving the yielded items equal the whole-stream frames. A path cover of every model edge is executed on the real Framed over a scripted AsyncRead, and TLC judges the observed items in predicate mode, with strict mode recording drift. Seeded 20-64 KiB streams with reads up to 9000 bytes are judged by a reference cross-checked against every TLC vector.",
+    "For the length-prefixed test codec, LinesCodec and BytesCodec, TLC enumerates every input up to length 4 (quick) / 5-6 (thorough) over alphabets containing the delimiters, and every script of read results (all chunkings, Pending, one I/O error, EOF) on a branch-by-branch model of next_item, proving the yielded items equal the whole-stream frames and that an I/O error item comes after every frame completed by the bytes delivered before it. A path cover of every model edge is executed on the real Framed over a scripted AsyncRead, and TLC judges the observed items in predicate mode, with strict mode recording drift. Seeded 20-64 KiB streams with reads up to 9000 bytes are judged by a reference cross-checked against every TLC vector.",
     "Trusts TLC, the path-cover script, the scripted AsyncRead, and (long streams only) the Rust transliteration of WholeStreamFrames which is cross-checked on every TLC schedule.")
 CLAIMED["C14"] = ("codec", "5/C14, 4.8",
     "TLA+ FramedWrite.tla model-checked by TLC (+5 NEG variants incl. the e49087f close defect); edge-complete path cover replayed on the real Framed (BytesCodec/LinesCodec encoders); traces validated by TLC against FramedWriteTrace (strict, recorded transport answers as hint)",
@@ -58,7 +61,7 @@ CLAIMED["C19"] = ("connect", "5/C19, 4.10",
 
 CLAIMED["C18"] = ("tls", "5/C18, 4.10",
     "TLA+ spec TlsAccept.tla model-checked exhaustively by TLC (+5 NEG variants that must be rejected); every edge of the state graph replayed on the real rustls 0.23 and OpenSSL acceptor services over a gated in-memory duplex under Tokio's paused clock with scripted real TLS clients; all recorded runs plus seeded random walks validated by TLC against TlsAcceptTrace.tla (strict); payload equality checked differentially by the driver",
-    "All interleavings of poll_ready (2 wakers), call with handshake script complete@t / fail@t / stall, poll / drop of call futures and clock ticks are enumerated by TLC for limits 1..3, up to 4-5 concurrent calls and timeouts of 2-3 ticks; an init-rooted path cover of every edge of the replayed graphs (3-4 concurrent calls) is executed on both acceptor services with handshake timeouts 0.1 / 1.5 / 5 s in virtual time, and the observed readiness answers, resolution variant and instant (1 ms granularity), wake-ups and number of unresolved calls are compared with the edge labels and validated by TLC; random walks with up to 5 concurrent calls are judged by TLC alone. The data-intact clause (payloads 0 B..64 KiB both ways) is a differential byte comparison by the driver recorded as echo observations, not a model-based claim.",
+    "All interleavings of poll_ready (2 wakers), call with handshake script complete@t / fail@t / stall, poll / drop of call futures and clock ticks are enumerated by TLC for limits 1..3, up to 4-5 concurrent calls and timeouts of 2-3 ticks; an init-rooted path cover of every edge of the replayed graphs (3-4 concurrent calls) is executed on both acceptor services with handshake timeouts 0.1 / 1.5 / 5 s in virtual time, and the observed readiness answers, resolution variant and instant (1 ms granularity), wake-ups and number of unresolved calls are compared with the edge labels and validated by TLC; random walks with up to 5 concurrent calls are judged by TLC alone. A third flavour runs a rustls and an OpenSSL acceptor service side by side on one thread (the limit is per thread). The data-intact clause (payloads 0 B..64 KiB both ways after every accepted handshake, plus 0..70 000 bytes over in-memory transports of 1 MiB / 16 KiB / 4 KiB / 1 KiB with reader and writer polled concurrently and nothing written after the flush) is a differential byte comparison by the driver, not a model-based claim.",
     "Trusts TLC, the path-cover script, Tokio's paused clock/timer wheel, counting wakers, rustls/aws-lc-rs and OpenSSL; handshakes in progress are measured as live call futures; bounded constants.")
 
 CLAIMED["C11"] = ("service", "5/C11, 4.7", 'TLA+/TLC explicit-state model checking of a denotational+operational combinator spec (CombTerms.tla, Combinators.tla); TLC-generated vectors replayed on the real crate (manual executor, type-erased scripted leaves); recorded traces judged by TLC in predicate mode and bound in strict mode (CombinatorsTrace.tla); NEG variant configs as vacuity guard',
@@ -70,11 +73,11 @@ CLAIMED["C12"] = ("service", "5/C12, 4.7", 'TLA+/TLC explicit-state model checki
 
 CLAIMED["C07"] = ("server", "5/C07, 4.2",
     "TLA+ spec Worker.tla (one action = one poll of the ServerWorker future, transcribed branch by branch) model-checked exhaustively by TLC with NEG variants; state-graph paths replayed on the real ServerWorker built in-thread with scripted services under virtual time; per-poll service logs judged by TLC in predicate mode and bound in strict mode (WorkerTrace.tla)",
-    "All readiness scripts (Pending/Ready/Err in every position) of 1..3 services, arrival orders of connections and factory re-creation with pending polls are enumerated by TLC on a transcription of ServerWorker::poll; an edge cover of the model is executed on the real future and TLC checks on the services' own log that a call happens only right after a pass in which every service answered ready, that connections are served in queue order, that only the failing service is re-created and that nothing queued is lost; strict mode additionally shows the real future follows the model poll by poll.",
+    "All readiness scripts (Pending/Ready/Err in every position) of 1..3 services, arrival orders of connections and factory re-creation with pending polls are enumerated by TLC on a transcription of ServerWorker::poll; an edge cover of the model is executed on the real future and TLC checks on the services' own log that a call happens only right after a pass in which every service answered ready, that connections are served in queue order, that only the failing service is re-created, that every failed service IS re-created, and that nothing queued is lost; strict mode additionally shows the real future follows the model poll by poll.",
     SRV_NOTE)
 CLAIMED["C06"] = ("server", "5/C06, 4.2, 4.3",
     "TLA+ specs Worker.tla (worker side) and ServerStop.tla (protocol across command loop, accept thread, workers) model-checked by TLC incl. liveness under fairness and NEG variants; worker-side paths replayed deterministically on the real ServerWorker under virtual time and judged by TLC (WorkerTrace.tla); end-to-end scenarios on a real Server (real threads, sockets, OS signals in a child process) recorded with a global sequence number and judged by TLC (ServerStopTrace.tla)",
-    "TLC explores every interleaving of stop commands (handle and signal kinds, repeated), server command-loop steps, accept-thread exit, worker replies, ticks and connection completions (0..3 per worker, 1..2 workers) and checks graceful-waits, no-dispatch-after-completion, signal mapping and, under fairness, that every stop future and the Server future resolve; the worker's reply value/time and shutdown drain are checked on the real worker future for every model path in virtual time; real-thread runs (graceful/forced, timeout, second stop, dropped future, paused, SIGTERM/SIGINT/SIGQUIT) are judged by TLC on recorded events.",
+    "TLC explores every interleaving of stop commands (handle and signal kinds, repeated), server command-loop steps, accept-thread exit, worker replies, ticks and connection completions (0..3 per worker, 1..2 workers) (the exiting accept thread closes the workers' queues: WorkerQueueClosed) and checks graceful-waits, no connection torn down during a graceful stop before the timeout (C06_GracefulLetsFinish; variant WakeAcceptFirst = defect F8 rejected), no-dispatch-after-completion, signal mapping and, under fairness, that every stop future and the Server future resolve; the worker's reply value/time and shutdown drain are checked on the real worker future for every model path in virtual time; real-thread runs (graceful/forced, timeout, second stop, dropped future, paused, SIGTERM/SIGINT/SIGQUIT, the server thread held between the two halves of the stop handler) are judged by TLC on recorded events incl. service futures dropped unfinished.",
     SRV_NOTE + " End-to-end runs use real time with generous bounds (forced stop must complete within 1.5 s; rejections are re-run before being believed).")
 
 RT_TECH = 'TLA+ design model (spec/rt/ActixRt.tla + RtProps.tla) checked exhaustively with TLC incl. liveness and NEG variants; randomized real-thread driver (harness/rt) records call-interval histories through the public API; TLC evaluates the same property predicates on every prefix of every recorded history (predicate-mode trace validation, spec/rt/ActixRtTrace.tla)'
